@@ -70,6 +70,7 @@ def register(reg):
         note="non-static input: exactly one request (source, time, target or self) reaches the source; upstream buffers are only evicted",
     ))
     register_verified(reg)
+    register_ctor(reg)
 
 
 # =================================================================================================
@@ -208,6 +209,8 @@ def install(ex):
             r = TRANSF(fn.e, x.e)
             # the transformation re-orders magnitudes: the unit label of the data is unaffected
             path.assume(UNITS_OF(r) == UNITS_OF(x.e))
+            from .base import ISMASKED
+            path.assume(ISMASKED(r) == ISMASKED(x.e))      # ... and a masked slice stays masked (the mask is re-ordered with the values)
             return sv.SPay(r)
         return None
 
@@ -217,3 +220,28 @@ def install(ex):
 BOUNDED = {"C08": [{"name": "prepare-payload-forms", "script": "replay/drivers/bnd_prepare.py", "args": ["--json"], "timeout": 600},
                    {"name": "grid-layouts", "script": "replay/drivers/bnd_grids.py", "args": ["--json"], "timeout": 3000}]}
 REPLAY = {f"{INP}.pull_data": "seq_output.py", f"{INP}._convert_and_check": "seq_output.py"}
+
+
+# =================================================================================================
+# constructors of the input classes (C19.1 / C20.1): the slot is what it was declared to be
+# =================================================================================================
+def register_ctor(reg):
+    reg.field("_logger", TOpt(TObj("logger")))
+    reg.field("base_logger_name", TOpt(sv.Str))
+    reg.field("callback", TOpt(TObj("callback")))
+    for cls, extra in (("Input", {}), ("CallbackInput", {"callback": TObj("callback")})):
+        qual = f"finam.sdk.input.{cls}.__init__"
+        params = dict(extra)
+        params.update({"name": sv.Str, "info": TOpt(TRef("Info")), "static": sv.Bool})
+
+        def post(ctx, r):
+            s = ctx.self
+            return {"static flag as declared": ctx.get(s, "_static").e == ctx.static.e,
+                    "info as declared": sv.value_eq(ctx.get(s, "_input_info"), ctx.info),
+                    "not connected yet": And(is_none(ctx.get(s, "_source")), Not(ctx.get(s, "_in_info_exchanged").e)),
+                    "name as declared": ctx.get(s, "_name").e == ctx.name.e}
+
+        reg.add(Contract(qual, self_cls=cls, props=["C19.1", "C20.1", "C07.3"], params=params, ensures=post,
+                         modifies=lambda ctx: [(ctx.self, f) for f in ("_source", "base_logger_name", "_name", "_static", "_input_info", "_in_info_exchanged",
+                                                                      "_cached_data", "_transform", "callback", "_logger_name", "_logger")],
+                         name=f"__init__<{cls}>", primary=False))
